@@ -99,7 +99,7 @@ theorem C03_step (v : Vec) (hv : v.Inv) (op : Op) (hop : op.Ok v.abs) :
   | append x => exact stepRel_of_editOk v _ _ (C07_append v x hv hop)
   | prepend x => exact stepRel_of_editOk v _ _ (C07_prepend v x hv hop)
   | insert i x => exact stepRel_of_editOk v _ _ (C07_insert v x hv hop.2 i (hl ▸ hop.1))
-  | extend bs => exact stepRel_of_editOk v _ _ (C07_extend v hv bs)
+  | extend bs hint => exact stepRel_of_editOk v _ _ (C07_extend v hv bs hint)
   | shlIn b =>
     have r := C05_shl_in v hv b
     refine ⟨r.1, congrArg Prod.fst r.2, by simp only [Option.some.injEq]; exact congrArg Prod.snd r.2, ?_⟩
